@@ -173,6 +173,24 @@ func c09Configs(g *rng.R, thorough bool) []func() (*c09Stack, error) {
 			return p2pmux.NewVarintAskMux[memAddr](x).Open(id)
 		}})
 	}
+	// two channels with headers of different length on ONE multiplexer: the other channel is opened, and asked for its MTU,
+	// first. Each channel's MTU has to account for its own header.
+	for _, pr := range [][2]string{{"", strings.Repeat("z", 1000)}, {strings.Repeat("z", 1000), ""}, {"a", strings.Repeat("y", 128)}} {
+		pr := pr
+		muxes = append(muxes, muxCase{fmt.Sprintf("string[%d-after-%d]", len(pr[1]), len(pr[0])), func(x p2p.AskSwarm[memAddr]) p2p.Swarm[memAddr] {
+			m := p2pmux.NewStringAskMux[memAddr](x)
+			_ = m.Open(pr[0]).MTU()
+			return m.Open(pr[1])
+		}})
+	}
+	for _, pr := range [][2]uint64{{0, 1<<64 - 1}, {1<<64 - 1, 0}, {127, 128}} {
+		pr := pr
+		muxes = append(muxes, muxCase{fmt.Sprintf("varint[%d-after-%d]", pr[1], pr[0]), func(x p2p.AskSwarm[memAddr]) p2p.Swarm[memAddr] {
+			m := p2pmux.NewVarintAskMux[memAddr](x)
+			_ = m.Open(pr[0]).MTU()
+			return m.Open(pr[1])
+		}})
+	}
 	muxes = append(muxes,
 		muxCase{"uint16", func(x p2p.AskSwarm[memAddr]) p2p.Swarm[memAddr] { return p2pmux.NewUint16AskMux[memAddr](x).Open(7) }},
 		muxCase{"uint32", func(x p2p.AskSwarm[memAddr]) p2p.Swarm[memAddr] { return p2pmux.NewUint32AskMux[memAddr](x).Open(7) }},
@@ -272,7 +290,7 @@ func c09Configs(g *rng.R, thorough bool) []func() (*c09Stack, error) {
 }
 
 func runC09(r *ev.Run) {
-	r.Rule = "per stack configuration (inner MTUs 40..65536, outer MTUs at and around 255 resp. 65535 parts, every multiplexer id length, equal and unequal multi-transport MTUs, nestings): lengths {0,1,MTU-1,MTU} and fragment-count boundaries +-1 must not be refused for size by the swarm or (recorder under the layer) any layer beneath, and arrive byte-identical (ledger); lengths {MTU+1, 2*MTU} must be refused with the MTU error and never be delivered, not even in part; tells and asks. never-delivered <=MTU cases are reported as coverage gaps, not violations. non-trivial = a boundary length that was delivered (<=MTU) or refused (>MTU); distinct = (configuration, boundary)"
+	r.Rule = "per stack configuration (inner MTUs 40..65536, outer MTUs at and around 255 resp. 65535 parts, every multiplexer id length, equal and unequal multi-transport MTUs, nestings): lengths {0,1,MTU-1,MTU} and fragment-count boundaries +-1 must not be refused for size by the swarm or (recorder under the layer) any layer beneath, and arrive byte-identical (ledger); lengths {MTU+1, 2*MTU} must be refused with the MTU error and never be delivered, not even in part; tells and asks. never-delivered <=MTU cases are reported as coverage gaps, not violations, except on connection-oriented transports where a control of half the length goes through every time and the boundary length never does (refused for size without the MTU error). non-trivial = a boundary length that was delivered (<=MTU) or refused (>MTU); distinct = (configuration, boundary)"
 	g := rng.New(r.Seed, "C09", fmt.Sprint(r.Batch))
 	cfgs := c09Configs(g, isThorough(r))
 	for ci, mk := range cfgs {
@@ -416,7 +434,11 @@ func c09Run(r *ev.Run, cs *c09Stack, g *rng.R, caseID string) {
 					p := led.mk(g, 0, 1, L, 0)
 					e := led.lookup(p)[len(led.lookup(p))-1]
 					v, _ := segment(g, p)
-					tctx, cf := context.WithTimeout(ctx, 20*time.Second)
+					callTimeout := 20 * time.Second
+					if cs.quic || cs.cfg == "ssh" {
+						callTimeout = 4 * time.Second
+					}
+					tctx, cf := context.WithTimeout(ctx, callTimeout)
 					var err error
 					if mode == "tell" {
 						err = sender.Tell(tctx, 1, v)
@@ -450,6 +472,29 @@ func c09Run(r *ev.Run, cs *c09Stack, g *rng.R, caseID string) {
 					r.Violate("C09/lost-to-inner-mtu/"+st.Name+"/"+mode, caseID, fmt.Sprintf("%s of %d bytes (<= MTU() = %d) returned nil but was never delivered; every attempt hit the MTU error of the transport underneath, which the layer swallowed", mode, L, mu), det(map[string]any{"len": L, "boundary": lc.name, "attempts": attempts}))
 				} else if !p2p.IsErrMTUExceeded(lastErr) {
 					r.Count("below_mtu_never_delivered", 1)
+					// Is it the size? On a connection-oriented transport (nothing is lost on the way) a control of half the
+					// length is sent; if that one goes through and the boundary length then fails once more, the only thing that
+					// differs is the length: some layer, here or at the peer, refused it for size without saying so.
+					if (cs.quic || cs.cfg == "ssh") && L >= 64 {
+						try := func(n int) bool {
+							p := led.mk(g, 0, 1, n, 0)
+							e := led.lookup(p)[len(led.lookup(p))-1]
+							v, _ := segment(g, p)
+							tctx, cf := context.WithTimeout(ctx, 5*time.Second)
+							defer cf()
+							var err error
+							if mode == "tell" {
+								err = sender.Tell(tctx, 1, v)
+							} else {
+								_, err = sender.Ask(tctx, make([]byte, 16), 1, v)
+							}
+							return err == nil && waitFor(e.Seq, time.Second)
+						}
+						c1, b1, c2, b2 := try(L/2), try(L), try(L/2), try(L)
+						if c1 && c2 && !b1 && !b2 {
+							r.Violate("C09/size-dependent-failure-below-mtu/"+st.Name+"/"+mode, caseID, fmt.Sprintf("%s of %d bytes (<= MTU() = %d) fails every time (%d attempts, last error %v) while %d bytes go through every time over the same connection: it is being refused for its size", mode, L, mu, attempts+2, lastErr, L/2), det(map[string]any{"len": L, "boundary": lc.name}))
+						}
+					}
 				}
 			} else {
 				p := led.mk(g, 0, 1, L, 9)
